@@ -599,6 +599,13 @@ func (self Node) Fields(ids []PathNode, rootLayer bool, msgDesc *proto.MessageDe
 			return errNode(meta.ErrRead, "", it.Err)
 		}
 		f := msgDesc.ByNumber(i)
+		if f == nil {
+			// a field the descriptor doesn't know can't be one of the wanted ones
+			if opts.DisallowUnknown {
+				return errNode(meta.ErrUnknownField, fmt.Sprintf("unknown field id %d", i), nil)
+			}
+			continue
+		}
 		typDesc := f.Type()
 		if typDesc.IsMap() || typDesc.IsList() {
 			it.p.Read = tagPos
